@@ -198,6 +198,12 @@ def greenlet_setup(ex, p):
     p.pc += [reach(caller.t, caller.t), reach(gf, gf)]        # base case of the ghost reachability definition
     ex.unit.bindings["greenlet_getcurrent"] = lambda ex_, p_, a, k, n: [("ok", p_, cur)]
     ex.unit.bindings["get_true_caller"] = lambda ex_, p_, a, k, n: [("ok", p_, caller)]
+    def read_gr_frame(ex_, p_, o):
+        # the TARGET's gr_frame may change under our feet (another thread can switch into it): count the reads - one snapshot
+        if o.t is glet.t or o.t.eq(glet.t):
+            p_.ghost["target_gr_frame_reads"] = p_.ghost.get("target_gr_frame_reads", 0) + 1
+        return [("ok", p_, SV(p_.getf(o.t, "gr_frame")))]
+    ex.unit.props[("greenlet", "gr_frame")] = read_gr_frame
     p.env["glet"] = glet
     return dict(glet=glet, cur=cur, caller=caller)
 
@@ -242,8 +248,15 @@ def greenlet_raise_ok(ctx):
     return And(is_kind(ctx.exc.t, "RuntimeError"), Val.is_none(H0.getf(glet, "gr_frame")), truthy_ref(Val.a(glet)), glet != cur)
 
 
+def greenlet_one_snapshot(ctx):
+    # every decision and the result come from ONE read of the target's gr_frame ("running elsewhere" is an error, never the
+    # stack of whoever runs by the time of a second look)
+    return BoolVal(ctx.p.ghost.get("target_gr_frame_reads", 0) == 1)
+
+
 GREENLET_UNIT = Unit("C15.unwrap_greenlet", UG, greenlet_setup,
-                     post=[Clause("C15.unwrap_greenlet.cases", greenlet_post)],
+                     post=[Clause("C15.unwrap_greenlet.cases", greenlet_post),
+                           Clause("C15.unwrap_greenlet.target_state_read_once", greenlet_one_snapshot, on=("any",))],
                      bindings=dict(EXTRACT_BINDINGS), methods=dict(STD_METHODS), ctors=dict(CTORS), known_classes=KNOWN,
                      invariants={(UG, "while#1"): walk_inv("C15.walk_current", lambda ctx: ctx.v0("inner_frame")),
                                  (UG, "while#2"): walk_inv("C15.walk_suspended", lambda ctx: ctx.v0("inner_frame"))},
